@@ -17,6 +17,7 @@ def _t(n):
 class SV:
     _vcx_symbolic = True
     _vcx_asarray = True
+    __array_ufunc__ = None
 
     def __init__(self, n, at, kind="f", guard=None, owner="solver", arange=False, name=None):
         self.n = _t(n)
